@@ -121,6 +121,21 @@ def decodeAux (e : Enc) : (fuel : Nat) → List UInt8 → (pos : Nat) → Except
 /-- `Decode` / `DecodeString` -/
 def decode (e : Enc) (s : List UInt8) : Except Err Bytes := decodeAux e (s.length + 1) s 0
 
+/-- `decode` on a string of alphabet characters, as `Decode`/`DecodeString`
+    report it: the bytes of the blocks decoded before the first bad block, and the
+    error of that block (if any) -/
+def decodePrefix (enc : Enc) : (fuel : Nat) → List UInt8 → Bytes × Option Err
+  | 0, _ => ([], none)
+  | fuel + 1, s =>
+    if s.isEmpty then ([], none)
+    else
+      let blk := s.take enc.charBlockLen
+      match decode enc.strict blk with
+      | .error e => ([], some e)
+      | .ok b =>
+        let (more, e) := decodePrefix enc fuel (s.drop enc.charBlockLen)
+        (b ++ more, e)
+
 /-- what `filteringReader` + strict decoding mean on a whole string: every byte
     must be alphabet or skip; skip bytes are dropped. -/
 def filterSkip (e : Enc) (s : List UInt8) : List UInt8 := s.filter (fun c => !(e.isSkip c && (e.digit? c).isNone))
